@@ -27,7 +27,9 @@ def run(R, tier, seed, only=None):
     d.close()
     R.cov["states"] = max(1, R.cov.get("states", 0))
     R.cov["transitions"] = max(1, R.cov.get("transitions", 0))
-    R.cov["traces_validated_against_impl"] = R.cov["queries"].get("sat", 0)
+    # concrete inputs pushed through the real code and compared with the encoding's reference (self-tests of K-sqlstr and K-strlex),
+    # plus every solver model that was replayed natively
+    R.cov["traces_validated_against_impl"] = R.cov.get("concrete_probes_validated", 0) + R.cov["queries"].get("sat", 0)
     R.cov["explanation"] = ("bounded symbolic execution of the MIR of prqlc's translate_literal and of the sqlparser dependency's Display code for string values: "
                             "the text is an array of symbolic code points with a symbolic length; every exit path yields the exact sequence of characters written, "
                             "and z3 decides that a doubled-quote-only SQL lexer reads it back as one literal denoting the text")
